@@ -114,4 +114,49 @@ CONTRACTS = [
         at_calls=False,
         notes="decorator: executed from source by the engine wherever a decorated accessor is called",
     ),
+    Contract(
+        "sqllineage.utils.helpers.trim_comment",
+        props=["C05"],
+        assume_only=True,
+        pure_function=True,
+        returns="str",
+        modifies=[],
+        notes="ASSUMED: sqlparse.format(strip_comments=True) is a function of the text",
+    ),
+    Contract(
+        R + "statements",
+        props=["C05", "C18"],
+        requires={"evaluated": "self._evaluated is True"},
+        ensures={
+            "one_reported_statement_per_statement_in_order": "len(result) == len(self._stmt)",
+            "each_is_the_trimmed_statement": "forall(lambda j: implies(0 <= j and j < len(self._stmt), result[j] == trim_comment(self._stmt[j])), j='int')",
+        },
+        modifies=[],
+        at_calls=False,
+    ),
+    Contract(
+        R + "to_cytoscape",
+        props=["C18"],
+        requires={"evaluated": "self._evaluated is True"},
+        ensures={
+            "column_level_exports_the_column_view": "implies(level == 'column', result == to_cytoscape(self._sql_holder.column_lineage_graph, compound=True))",
+            "otherwise_exports_the_table_view": "implies(level != 'column', result == to_cytoscape(self._sql_holder.table_lineage_graph))",
+        },
+        modifies=[],
+        at_calls=False,
+    ),
+    Contract(
+        R + "__str__",
+        props=["C18"],
+        requires={"evaluated": "self._evaluated is True", "summary_only": "self._verbose is False"},
+        ensures={
+            "summary_lists_the_same_tables_in_the_same_sorted_order": (
+                "result == 'Statements(#): ' + str(len(self.statements())) + '\\nSource Tables:\\n    ' + '\\n    '.join(str(t) for t in self.source_tables)"
+                " + '\\nTarget Tables:\\n    ' + '\\n    '.join(str(t) for t in self.target_tables) + '\\n'"
+                " + (('Intermediate Tables:\\n    ' + '\\n    '.join(str(t) for t in self.intermediate_tables)) if self.intermediate_tables else '')"
+            )
+        },
+        modifies=[],
+        at_calls=False,
+    ),
 ]
